@@ -33,6 +33,29 @@ CHECKS = {
     'C13': dict(engine='tlc-sismic', ref='6 C13', technique='TLC model checking with after/idle guards, clock advances and in-step ticks + TLC trace validation with ghost entry/idle times',
                 text='Charts with after/idle/active guards; the clock advances between and during steps; TLC checks that '
                      'every time value seen during a real step is the sampled one and that time guards evaluate as documented.'),
+    'C07': dict(engine='tlc-sismic', ref='6 C07', technique='TLC model checking of Sismic.tla + TLC evaluation of the twin-run equality relation (Props!RefEq) on paired recorded runs: build variants and PYTHONHASHSEED values',
+                text='Every model edge is replayed on pairs of real statecharts that differ only in declaration order (API orders, '
+                     'editing-API construction, YAML, reversed YAML) and, in other processes, under other string-hash seeds; TLC '
+                     'evaluates equality of the paired observations (macro steps, code order, sent events, context, error class).'),
+    'C08': dict(engine='tlc-sismic', ref='6 C08', level='model_checking', technique='TLC model checking with the failing condition occurrence enumerated inside the model (cfail) + TLC trace validation against the failure-free twin',
+                text='Contract-carrying charts; the model enumerates which single condition occurrence fails; TLC checks on real '
+                     'runs the evaluation points per kind, first-false-raises with class/owner/condition, prefix-of-the-failure-free-run, and __old__.'),
+    'C09': dict(engine='tlc-sismic', ref='6 C09', technique='TLC model checking with an in-model ignore_contract twin + TLC evaluation of the twin relation on paired real runs',
+                text='Lock-step pairs (contracts on / ignore_contract=True) over contract and time-guard charts; TLC checks equality '
+                     'modulo condition evaluations, and that ignoring runs never evaluate a condition nor raise a ContractError.'),
+    'C10': dict(engine='tlc-sismic', ref='6 C10', technique='TLC model checking with the failing meta-event delivery enumerated inside the model (mfail) + TLC trace validation with real property statecharts',
+                text='Real property statecharts that turn final at the k-th meta-event for every k; TLC checks completeness/order/'
+                     'attributes of the meta-events each listener received, fail-fast truncation, monitor clock, non-intrusiveness (twin).'),
+    'C14': dict(engine='tlc-clock', ref='6 C14', technique='TLC model checking of spec/Clock.tla (ghost ideal value) + replay of every edge on the real SimulatedClock + TLC trace validation (spec/ClockTrace.tla)',
+                text='All sequences of start/stop/speed/set/pass within bounds; Value = ideal, monotonic, exact/rejected assignment; '
+                     'SynchronizedClock through the interpreter engine (clause C14.sync).',
+                note='Trusted: TLC; the scripted integral time source substituted for time.time (wall-clock accuracy is not claimed); integers only.'),
+    'C17': dict(engine='tlc-sismic', ref='6 C17', technique='TLC model checking of Sismic.tla + TLC evaluation of the twin relation between a chart and its rename_state/copy_from_statechart image',
+                text='Order-preserving renamings of random subsets applied with the real rename_state, and guests plugged with '
+                     'copy_from_statechart; the renamed/host run must equal the original run after mapping names back.'),
+    'C18': dict(engine='tlc-sismic', ref='6 C18', level='model_checking', technique='TLC model checking of Sismic.tla + crash-point enumeration in the binding: pickle/deepcopy at macro-step boundaries, TLC evaluates the three-way twin relation',
+                text='At macro-step boundaries of every model behaviour the real interpreter is pickled or deep-copied; copy, original '
+                     'and an undisturbed run continue in lock step; TLC checks their observations (incl. __old__ verdict inputs, history, delayed events) are equal.'),
 }
 
 PENDING = {
@@ -67,12 +90,16 @@ def main():
     na = [{'property_id': p, 'reason': PENDING.get(p, 'check not built yet (build in progress, DESIGN.md section 10); '
                                                    'will be claimed once its TLA+ check exists')}
           for p in props if p not in CHECKS]
+    engines_extra = [
+        {'name': 'tlc-clock', 'path': 'spec/Clock.tla, spec/ClockTrace.tla; harness/clock_check.py',
+         'serves_properties': ['C14'], 'kind_free_text': 'TLA+ spec of SimulatedClock checked by TLC; edges replayed on the real clock; recorded runs validated by TLC'},
+    ]
     engines = [
         {'name': 'tlc-sismic', 'path': 'spec/Sismic.tla, spec/SismicTrace.tla, spec/Semantics.tla, spec/Props.tla, spec/Chart.tla; harness/',
          'serves_properties': [p for p in props if p in CHECKS and CHECKS[p]['engine'] == 'tlc-sismic'],
          'kind_free_text': 'explicit TLA+ specification of the interpreter checked with TLC; conformance in both directions '
                            '(model edges replayed on the real code; recorded executions validated by TLC)'},
-    ]
+    ] + [e for e in engines_extra if any(p in CHECKS for p in e['serves_properties'])]
     m = {'version': 1,
          'setup_cmd': './setup.sh',
          'hooks': {'guard': 'SISMIC_VERIF',
